@@ -29,7 +29,7 @@ def expected_windows(n, w, s):
 class C05(Check):
     ID = 'C05'
     LEVEL = 'exploration'
-    BUDGET = {'quick': 30, 'thorough': 300}
+    BUDGET = {'quick': 30, 'thorough': 240}
     EXHAUSTIVE = {'quick': False, 'thorough': False}
     RULE = ('case = (window w, stride s, stream, parent context). Box: EVERY (w, s, n) with w,s in 1..8 and n in 0..min(4*w*s+3, 80) (quick) / w,s in 1..11, n <= 140 (thorough) at top level '
             '(wraps the ceil(w/s) slot ring several times); then random w,s <= 12 under group_by with interleaved keys (int / tuple / string keys), nested in roll '
@@ -56,7 +56,7 @@ class C05(Check):
         self.box_done = 1
 
     def _nested(self, rng, tier):
-        k = 1500 if tier == 'quick' else 15000
+        k = 1500 if tier == 'quick' else 10 ** 7
         names = ['group', 'roll', 'roll_eq', 'split', 'time_split', 'group>roll', 'roll>group', 'top']
         for j in range(k):
             name = names[j % len(names)]
